@@ -139,7 +139,7 @@ class SymCtx(CtxBase):
 
     # ---- values -------------------------------------------------------------------
     def stream(self, items, pos=0, merge_reads=False):
-        return SymStream(items, pos, merge_reads=merge_reads)
+        return self.track(SymStream(items, pos, merge_reads=merge_reads))
 
     def mkbytes(self, items): return core.mkbytes(items)
 
